@@ -10,78 +10,12 @@ import (
 	"time"
 
 	vegeta "github.com/tsenart/vegeta/v12/lib"
+	"vharness/gen"
 	"vharness/kit"
+	"vharness/run"
 )
 
-func init() { props["C12"] = runC12 }
-
-var durUnits = []string{"ns", "us", "µs", "μs", "ms", "s", "m", "h"}
-
-func genDurText(r *kit.Rng) string {
-	var sb strings.Builder
-	if r.Chance(0.15) {
-		sb.WriteString(r.PickStr([]string{"-", "+"}))
-	}
-	n := 1 + r.Pick(3)
-	if r.Chance(0.05) {
-		return sb.String() + "0"
-	}
-	for i := 0; i < n; i++ {
-		switch r.Pick(6) {
-		case 0:
-			sb.WriteString(strconv.FormatInt(r.Range(0, 1000), 10))
-		case 1:
-			sb.WriteString(strconv.FormatUint(r.Uint64()>>uint(r.Pick(64)), 10))
-		case 2:
-			sb.WriteString(strconv.FormatInt(r.Range(0, 100), 10) + "." + strconv.FormatInt(r.Range(0, 999999), 10))
-		case 3:
-			sb.WriteString("." + strconv.FormatInt(r.Range(0, 99999), 10))
-		case 4:
-			sb.WriteString(strconv.FormatInt(r.Range(0, 3000000), 10) + ".")
-		default:
-			sb.WriteString(strconv.FormatInt(r.Range(1, 60), 10))
-		}
-		sb.WriteString(r.PickStr(durUnits))
-	}
-	return sb.String()
-}
-
-func mutate(r *kit.Rng, s string) string {
-	b := []byte(s)
-	for k := 0; k <= r.Pick(3); k++ {
-		switch r.Pick(6) {
-		case 0: // bit flip
-			if len(b) > 0 {
-				b[r.Pick(len(b))] ^= 1 << uint(r.Pick(8))
-			}
-		case 1: // delete
-			if len(b) > 0 {
-				i := r.Pick(len(b))
-				b = append(b[:i:i], b[i+1:]...)
-			}
-		case 2: // duplicate a span
-			if len(b) > 0 {
-				i := r.Pick(len(b))
-				j := i + r.Pick(len(b)-i)
-				b = append(b[:j:j], append(append([]byte{}, b[i:j]...), b[j:]...)...)
-			}
-		case 3: // truncate
-			if len(b) > 0 {
-				b = b[:r.Pick(len(b))]
-			}
-		case 4: // insert interesting byte
-			ins := []byte(" \t\n\r,.[]-+0e9:#@\x00\xc2\xa0\x85\xe2\x80\xa8\xff{}\"\\")
-			i := r.Pick(len(b) + 1)
-			b = append(b[:i:i], append([]byte{ins[r.Pick(len(ins))]}, b[i:]...)...)
-		case 5: // splice two halves swapped
-			if len(b) > 1 {
-				i := r.Pick(len(b))
-				b = append(append([]byte{}, b[i:]...), b[:i]...)
-			}
-		}
-	}
-	return string(b)
-}
+func main() { run.Main("C12", runC12) }
 
 func outcomeDur(s string) string {
 	var d time.Duration
@@ -109,7 +43,7 @@ func genBucketSpec(r *kit.Rng) (string, []string) {
 		var t string
 		switch r.Pick(5) {
 		case 0:
-			t = genDurText(r)
+			t = gen.DurText(r)
 		case 1:
 			if i == 0 && r.Chance(0.5) {
 				t = r.PickStr([]string{"0", "0s", "0ms", "-1ms"})
@@ -358,23 +292,23 @@ func oracleHist(s *kit.Summary, hc histCase, counts []uint64, total uint64, json
 	}
 }
 
-func runC12(c *ctx, s *kit.Summary) {
-	r := kit.NewRng(c.seed)
+func runC12(c *run.Ctx, s *kit.Summary) {
+	r := kit.NewRng(c.Seed)
 	s.Rule = "durations/bucket specs: generated from the grammar plus byte-level mutations; histograms: 1..20 increasing bounds (adjacent bounds included), latencies on/just below/just above bounds; non-trivial = distinct case with ≥2 buckets and ≥1 latency, or a spec with ≥2 parts"
 	dur := &kit.Stream{Name: "dur.parse"}
-	for i := 0; i < c.n(20000, 400000); i++ {
-		t := genDurText(r)
+	for i := 0; i < c.N(20000, 400000); i++ {
+		t := gen.DurText(r)
 		if r.Chance(0.35) {
-			t = mutate(r, t)
+			t = gen.Mutate(r, t)
 		}
 		o := outcomeDur(t)
 		s.Count("dur.parse:" + strings.Fields(o)[0])
 		s.Case("d:"+t, len(t) > 2)
 		dur.Add("dur.parse "+kit.HexS(t), o)
 	}
-	dur.Diff(c.driver, s)
+	dur.Diff(c.Driver, s)
 	ds := &kit.Stream{Name: "dur.string"}
-	for i := 0; i < c.n(20000, 400000); i++ {
+	for i := 0; i < c.N(20000, 400000); i++ {
 		d := r.Int64Edge()
 		if r.Chance(0.3) {
 			d = r.Range(0, 7200) * int64(r.PickI64([]int64{1, 1000, 1000000, 1000000000, 500000000}))
@@ -382,14 +316,14 @@ func runC12(c *ctx, s *kit.Summary) {
 		s.Case("s:"+strconv.FormatInt(d, 10), true)
 		ds.Add("dur.string "+strconv.FormatInt(d, 10), "ok "+kit.HexS(time.Duration(d).String()))
 	}
-	ds.Diff(c.driver, s)
+	ds.Diff(c.Driver, s)
 
 	um := &kit.Stream{Name: "hist.unmarshal"}
-	for i := 0; i < c.n(10000, 300000); i++ {
+	for i := 0; i < c.N(10000, 300000); i++ {
 		spec, parts := genBucketSpec(r)
 		mut := r.Chance(0.25)
 		if mut {
-			spec = mutate(r, spec)
+			spec = gen.Mutate(r, spec)
 		}
 		o, bs, ok := implUnmarshal(spec)
 		s.Count("unmarshal:" + strings.Fields(o)[0])
@@ -435,10 +369,10 @@ func runC12(c *ctx, s *kit.Summary) {
 			}
 		}
 	}
-	um.Diff(c.driver, s)
+	um.Diff(c.Driver, s)
 
 	ha := &kit.Stream{Name: "hist.add"}
-	for i := 0; i < c.n(10000, 300000); i++ {
+	for i := 0; i < c.N(10000, 300000); i++ {
 		inDomain := !r.Chance(0.15)
 		hc := genHistCase(r, inDomain)
 		line, counts, total, js, rows, tx, _ := implHist(hc)
@@ -455,5 +389,5 @@ func runC12(c *ctx, s *kit.Summary) {
 			oracleHist(s, hc, counts, total, js, rows, tx)
 		}
 	}
-	ha.Diff(c.driver, s)
+	ha.Diff(c.Driver, s)
 }
